@@ -360,3 +360,179 @@ func cascades(n *nic) {
 		t.Errorf("cascades: a → %q, b → %q; want y, y", got["a"], got["b"])
 	}
 }
+
+func verdictsOf(c *Ctx, rule string) (bad, good int) {
+	for _, o := range c.Obls {
+		if o.Rule != rule {
+			continue
+		}
+		if o.Verdict == Discharged {
+			good++
+		} else {
+			bad++
+		}
+	}
+	return
+}
+
+func TestShadowRule(t *testing.T) {
+	src := `package snippet
+import "errors"
+func f() error { return nil }
+func g() error { return errors.New("x") }
+func lookup() (string, string) { return "a", "b" }
+func use(...any) {}
+// S1: the else-branch assigns the inner err; the outer one is what is tested afterwards
+func deadStore() error {
+	var err error
+	if err := f(); err != nil {
+		use(err)
+	} else {
+		err = g()
+	}
+	if err != nil {
+		return err
+	}
+	return nil
+}
+// S2: := in a nested block redeclares both outer names
+func redeclare(fallback bool) {
+	a, b := "", ""
+	if fallback {
+		a, b := lookup()
+		use(a, b)
+	}
+	use(a, b)
+}
+// idiomatic: the inner err is tested and returned; the outer one is reassigned before it is read
+func idiomatic() error {
+	err := f()
+	if err != nil {
+		return err
+	}
+	if err := g(); err != nil {
+		return err
+	}
+	x, err := lookupErr()
+	use(x)
+	return err
+}
+func lookupErr() (string, error) { return "", nil }
+// a new variable next to a shadowed error is not S2
+func mixed() {
+	a := ""
+	var err error
+	if a == "" {
+		b, err := lookupErr()
+		use(b, err)
+	}
+	use(a, err)
+}
+`
+	p := snippetProg(t, src)
+	fs, n := shadowFindings(p.AllFuncs())
+	got := map[string]string{}
+	for _, f := range fs {
+		got[f.fn.Name] = f.kind
+	}
+	if got["deadStore"] != "S1" || got["redeclare"] != "S2" {
+		t.Errorf("shadow slips not reported: %v", got)
+	}
+	if _, bad := got["idiomatic"]; bad {
+		t.Errorf("idiomatic error shadowing reported")
+	}
+	if _, bad := got["mixed"]; bad {
+		t.Errorf("a := with a new variable reported")
+	}
+	if n == 0 {
+		t.Errorf("nothing examined")
+	}
+}
+
+func TestRangeShrinkAndRoleMismatch(t *testing.T) {
+	src := `package snippet
+type item struct{ id string }
+type rec struct{ items []item }
+func keep(item) bool { return true }
+func bad(r *rec) {
+	for j := range r.items {
+		if !keep(r.items[j]) {
+			r.items = append(r.items[:j], r.items[j+1:]...)
+		}
+	}
+}
+func good(r *rec) {
+	for j := 0; j < len(r.items); j++ {
+		if !keep(r.items[j]) {
+			r.items = append(r.items[:j], r.items[j+1:]...)
+		}
+	}
+	for j := range r.items {
+		_ = r.items[j]
+	}
+}
+type data struct{ Ip, Gateway, Mask string }
+func network(gateway, mask string) string { return gateway + mask }
+func wrongField(d data) string { return network(d.Ip, d.Mask) }
+func rightField(d data) string { return network(d.Gateway, d.Mask) }
+`
+	p := snippetProg(t, src)
+	found, fnOf, loops := rangeShrinks(p, p.AllFuncs())
+	if len(found) != 1 || fnOf[found[0]].Name != "bad" || loops < 2 {
+		t.Errorf("range-shrink: found %d (loops %d)", len(found), loops)
+	}
+	rm, _ := roleMismatches(p, p.AllFuncs())
+	if len(rm) != 1 || rm[0].fn.Name != "wrongField" || rm[0].want != "d.Gateway" {
+		t.Errorf("role mismatch: %+v", rm)
+	}
+}
+
+func TestAddrFromSliceAndOpenFile(t *testing.T) {
+	src := `package snippet
+import (
+	"net"
+	"net/netip"
+	"os"
+)
+func mapped(ip net.IP) netip.Addr {
+	a, _ := netip.AddrFromSlice(ip)
+	return a
+}
+func unmapped(ip net.IP) netip.Addr {
+	a, _ := netip.AddrFromSlice(ip)
+	return a.Unmap()
+}
+func narrowed(ip net.IP) netip.Addr {
+	a, _ := netip.AddrFromSlice(ip.To4())
+	return a
+}
+func rewrite(path string, b []byte) error {
+	f, err := os.OpenFile(path, os.O_WRONLY|os.O_CREATE, 0o644)
+	if err != nil {
+		return err
+	}
+	defer f.Close()
+	_, err = f.Write(b)
+	return err
+}
+func truncate(path string, b []byte) error {
+	f, err := os.OpenFile(path, os.O_WRONLY|os.O_CREATE|os.O_TRUNC, 0o644)
+	if err != nil {
+		return err
+	}
+	defer f.Close()
+	_, err = f.Write(b)
+	return err
+}
+`
+	p := snippetProg(t, src)
+	c := NewCtx(p, "T", "quick")
+	ruleAddrFromSlice(c, "T.R1", "the snippet")
+	if bad, good := verdictsOf(c, "T.R1"); bad != 1 || good != 2 {
+		t.Errorf("AddrFromSlice: %d bad, %d good (want 1, 2)", bad, good)
+	}
+	ruleOpenFileTrunc(c, "T.R2", "the snippet")
+	if bad, good := verdictsOf(c, "T.R2"); bad != 1 || good != 1 {
+		t.Errorf("OpenFile: %d bad, %d good (want 1, 1)", bad, good)
+	}
+}
